@@ -83,14 +83,6 @@ def qPat? (q : Nat × Nat × Nat × Nat) : Option (TPat × GTerm) := do
   let s ← pTerm? q.1; let p ← pTerm? q.2.1; let o ← pTerm? q.2.2.1; let g ← gTerm? q.2.2.2
   pure ((s, p, o), g)
 
-/-- consecutive quads with the same graph term form one block (TriplesBlock / one GRAPH block) -/
-def groupBlocks : List (TPat × GTerm) → List Block
-  | [] => []
-  | (t, g) :: rest =>
-    match groupBlocks rest with
-    | (g', ts) :: bs => if g = g' then (g, t :: ts) :: bs else (g, [t]) :: (g', ts) :: bs
-    | [] => [(g, [t])]
-
 def graphNames? (gs : List Nat) : Option (List Nat) :=
   gs.mapM (fun g => if 90 ≤ g && g < 100 then some g else none)
 
